@@ -109,6 +109,18 @@ def case_strategy(draw):
             head = [[["add_ball", 1, False], 5.0], [["lock_shot", 50], 3.1], [["escape", "bd_lock", 1], 1.0],
                     [["upper_exit"], draw(st.sampled_from(GAPS))]]
         steps = head + steps
+    elif topo["lock"] and topo["lock"]["kind"] == "entrance" and n > topo["lock"]["cap"] and draw(st.integers(0, 2)) == 0:
+        # scenario: the entrance-counted lock is filled to capacity (the balls are held: claims), then another ball knocks
+        # on its entrance switch
+        cap = topo["lock"]["cap"]
+        claims = [True] * cap + claims
+        head = []
+        for _ in range(cap + 1):
+            head.append([["add_ball", 1, False], 6.0])
+        for _ in range(cap):
+            head.append([["lock_shot", 50], 2.0])
+        head += [[["knock"], draw(st.sampled_from([1.0, 3.0]))], [["knock"], draw(st.sampled_from(GAPS))]]
+        steps = head + steps
     outcomes = {}
     for d, to_pf in (("bd_trough", False), ("bd_outhole", False), ("bd_launcher", not topo["vuk"]), ("bd_lock", True),
                      ("bd_vuk", True)):
